@@ -92,33 +92,35 @@ def ovpnPlainOk (b : Bytes) : Bool :=
 def ovpnTry (cfg : OvpnCfg) (b : Bytes) : Bool :=
   (cfg.plain && ovpnPlainOk b) || (cfg.auth && cfg.authOk b) || (cfg.crypt && cfg.cryptOk b)
 
+/-- the P_CONTROL_HARD_RESET_CLIENT_V3 (tls-crypt-v2) branch, also tried when a V2 message matched no enabled mode -/
+def ovpnV3 (cfg : OvpnCfg) (isTcp : Bool) (l opcode : Nat) : Prog :=
+  if opcode = l4openvpn_OpcodeControlHardResetClientV3 ∧ cfg.crypt2 then
+    if isTcp then
+      if l < l4openvpn_MessageCrypt2BytesMin then .ret .no else
+      .readAtLeast (l - 1 + 1) (l - 1) fun b =>
+        if b.length > l - 1 then .ret .no else .ret (if cfg.crypt2Ok b then .yes else .no)
+    else
+      .readAtLeast (l4openvpn_MessageCrypt2BytesMaxHL + 1) 1 fun b =>
+        if b.length < l4openvpn_MessageCrypt2BytesMinHL ∨ b.length > l4openvpn_MessageCrypt2BytesMaxHL then .ret .no
+        else .ret (if cfg.crypt2Ok b then .yes else .no)
+  else .ret .no
+
 /-- after the opcode byte: `l` is the TCP length field (0 for UDP) -/
 def ovpnBody (cfg : OvpnCfg) (isTcp : Bool) (l : Nat) (op : UInt8) : Prog :=
   let keyId := op.toNat % 8
   let opcode := op.toNat / 8
   if keyId > 0 then .ret .no else
-  let v3 : Prog :=
-    if opcode = l4openvpn_OpcodeControlHardResetClientV3 ∧ cfg.crypt2 then
-      if isTcp then
-        if l < l4openvpn_MessageCrypt2BytesMin then .ret .no else
-        .readAtLeast (l - 1 + 1) (l - 1) fun b =>
-          if b.length > l - 1 then .ret .no else .ret (if cfg.crypt2Ok b then .yes else .no)
-      else
-        .readAtLeast (l4openvpn_MessageCrypt2BytesMaxHL + 1) 1 fun b =>
-          if b.length < l4openvpn_MessageCrypt2BytesMinHL ∨ b.length > l4openvpn_MessageCrypt2BytesMaxHL then .ret .no
-          else .ret (if cfg.crypt2Ok b then .yes else .no)
-    else .ret .no
   if opcode = l4openvpn_OpcodeControlHardResetClientV2 ∧ (cfg.plain ∨ cfg.auth ∨ cfg.crypt) then
     if isTcp then
       if l > l4openvpn_MessageAuthBytesMax then .ret .no else
       .readAtLeast (l - 1 + 1) (l - 1) fun b =>
         if b.length > l - 1 then .ret .no
-        else if ovpnTry cfg b then .ret .yes else v3
+        else if ovpnTry cfg b then .ret .yes else ovpnV3 cfg isTcp l opcode
     else
       .readAtLeast (l4openvpn_MessageAuthBytesMaxHL + 1) 1 fun b =>
         if b.length < l4openvpn_MessagePlainBytesTotalHL ∨ b.length > l4openvpn_MessageAuthBytesMaxHL then .ret .no
-        else if ovpnTry cfg b then .ret .yes else v3
-  else v3
+        else if ovpnTry cfg b then .ret .yes else ovpnV3 cfg isTcp l opcode
+  else ovpnV3 cfg isTcp l opcode
 
 def openvpn (cfg : OvpnCfg) (isTcp : Bool) : Prog :=
   if isTcp then
